@@ -80,6 +80,7 @@ func TestSim(t *testing.T) {
 	if os.Getenv("VERIF_ENGINE_LOG") != "" {
 		EngineLog = os.Stderr
 	}
+	warmUp(t)
 	switch mode {
 	case "search":
 		searchMode(t)
@@ -228,6 +229,7 @@ func replayMode(t *testing.T, strict bool) {
 
 // detMode: run each seed twice and print "seed hash" lines for cross-process diffing.
 func detMode(t *testing.T) {
+	TraceDraws = os.Getenv("VERIF_TRACE_DRAWS") != ""
 	family := os.Getenv("VERIF_FAMILY")
 	base := envInt("VERIF_SEED_BASE", 1)
 	n := envInt("VERIF_MAXRUNS", 20)
@@ -243,6 +245,33 @@ func detMode(t *testing.T) {
 		lines += fmt.Sprintf("%d %s %s %s %d %s\n", base+i, a.Hash, b.Hash, c.Hash, a.Events, c.Diverged)
 		if a.Hash != b.Hash || a.Hash != c.Hash {
 			lines += fmt.Sprintf("MISMATCH seed=%d\n", base+i)
+			other := b
+			if a.Hash == b.Hash {
+				other = c
+			}
+			if TraceDraws {
+				for j := 1; j < len(a.draws) && j < len(other.draws); j++ {
+					if a.draws[j]-a.draws[0] != other.draws[j]-other.draws[0] {
+						lines += fmt.Sprintf("  draws differ first at step %d: A=%d B=%d (prev A=%d B=%d) choiceA=%v choiceB=%v\n", j, a.draws[j]-a.draws[0], other.draws[j]-other.draws[0], a.draws[j-1]-a.draws[0], other.draws[j-1]-other.draws[0], a.choices[j-1], other.choices[j-1])
+						break
+					}
+				}
+			}
+			for j := 0; j < len(a.events) && j < len(other.events); j++ {
+				if a.events[j].String() != other.events[j].String() {
+					for k := max(0, j-6); k <= j; k++ {
+						lines += "  A " + a.events[k].String() + "\n"
+					}
+					lines += "  B " + other.events[j].String() + "\n"
+					for k := max(0, j-8); k < len(a.choices) && k < len(other.choices) && k < j+400; k++ {
+						if a.choices[k] != other.choices[k] {
+							lines += fmt.Sprintf("  first differing choice #%d: A=%v B=%v\n", k, a.choices[k], other.choices[k])
+							break
+						}
+					}
+					break
+				}
+			}
 		}
 	}
 	if out := os.Getenv("VERIF_OUT"); out != "" {
@@ -250,4 +279,16 @@ func detMode(t *testing.T) {
 	} else {
 		fmt.Print(lines)
 	}
+}
+
+// warmUp runs a few throw-away simulations so that process-wide lazy initialisation
+// (metrics registries, sync.Once guarded tables, pools) happens before any run that counts.
+func warmUp(t *testing.T) {
+	focus := os.Getenv("VERIF_FOCUS")
+	os.Setenv("VERIF_FOCUS", "")
+	for i, eng := range []string{"v1", "v2", "v1", "v2"} {
+		cfg := GenConfigEngine(int64(900001+i), "pipe", eng)
+		RunOne(t, cfg, nil, false)
+	}
+	os.Setenv("VERIF_FOCUS", focus)
 }
